@@ -66,6 +66,19 @@ rule('D14', 'utf8', r'\nimpl Utf8Accum \{\n',
      '\nimpl Default for Utf8Accum {\n    fn default() -> Self {\n        Utf8Accum { buffer: [0; 4], expected: 0, partial: 0 }\n    }\n}\n\nimpl Utf8Accum {\n', 1,
      '#[derive(Default)] expands to a field-wise Default::default(): [0;4], 0, 0')
 
+# ---- input ------------------------------------------------------------------------------------------
+rule('D8', 'input', r'^use bitflags::bitflags;\n', '', 1, 'bitflags macro replaced by the Flags model')
+rule('D8', 'input', r'^bitflags! \{\n    #\[derive\(Debug\)\]\n    struct Flags: u8 \{\n        const CSI_STARTED = 1;\n    \}\n\}\n',
+     'use crate::verif_specs::Flags; // bitflags! { struct Flags: u8 { const CSI_STARTED = 1; } } (model, rule D8)\n', 1,
+     'bitflags! is a macro Verus cannot expand into verifiable code: empty/contains/set are modelled on a u8 bit '
+     'set in specs/10_deps_model.rs (verified bit-level bodies; the correspondence with the macro is trusted)')
+rule('D4', 'input', r'self\.process_csi\(byte\)\.map\(Input::Control\)',
+     'match self.process_csi(byte) { Some(__c) => Some(Input::Control(__c)), None => None }', 1,
+     'Option::map with a constructor path == match (definition of Option::map)')
+rule('D4', 'input', r'return self\.utf8\.push_byte\(byte\)\.map\(Input::Char\)',
+     'return match self.utf8.push_byte(byte) { Some(__c) => Some(Input::Char(__c)), None => None }', 1,
+     'Option::map with a constructor path == match (definition of Option::map)')
+
 
 def apply(module, src, log):
     for r in RULES:
